@@ -39,6 +39,61 @@ pub fn cells(tier: Tier) -> Vec<CellPlan> {
         let dev = if clients == 1 { if q { 2 } else { 3 } } else { if q { 1 } else { 2 } };
         v.push(plan(c, dev, 2.0));
     }
+    // Three clients with different last update ticks (whitelist): a broadcast is stamped per client.
+    {
+        let mut cfg = Cfg::default();
+        cfg.events = true;
+        cfg.vis = Vis::Whitelist;
+        cfg.clients = vec![1200; 3];
+        let c = EvCell {
+            name: "c04-ticks-3c".into(),
+            property: "C04",
+            cfg,
+            connect_at_start: vec![0, 1, 2],
+            init: vec![Op::Spawn(0, 1 << TA), Op::Vis(0, 0, true), Op::Vis(1, 0, true), Op::Vis(2, 0, true), Op::Spawn(1, 1 << TA)],
+            alphabet: vec![
+                EvOp::Nop,
+                EvOp::World(Op::Vis(1, 1, true)),
+                EvOp::World(Op::Vis(2, 1, true)),
+                EvOp::World(Op::Vis(0, 1, true)),
+                EvOp::EmitS(SK::E1, Mode::Broadcast, None),
+                EvOp::EmitS(SK::EM, Mode::Broadcast, Some(0)),
+            ],
+            rounds: if q { 3 } else { 4 },
+            tick_choice: true,
+            env: EvEnv { hold_updates: 1, hold_events: false, reorder: false, drop_unreliable: false, hold_client_events: false, hold_mutations: false, hold_acks: false, update_latency: 0 },
+            oracles: EvOracles { c04: true, ..Default::default() },
+            closure_rounds: 4,
+        };
+        v.push(plan(c, 1, 2.0));
+    }
+    // Update channel one and two rounds behind the event channels by default.
+    for lat in [1u32, 2] {
+        let mut cfg = Cfg::default();
+        cfg.events = true;
+        let c = EvCell {
+            name: format!("c04-lag{lat}"),
+            property: "C04",
+            cfg,
+            connect_at_start: vec![0],
+            init: vec![Op::Spawn(0, 1 << TA)],
+            alphabet: vec![
+                EvOp::Nop,
+                EvOp::World(Op::Spawn(1, 1 << TA)),
+                EvOp::World(Op::Ins(0, TB)),
+                EvOp::World(Op::Rm(0, TB)),
+                EvOp::EmitS(SK::E1, Mode::Broadcast, None),
+                EvOp::EmitS(SK::EM, Mode::Broadcast, Some(1)),
+                EvOp::EmitS(SK::T1, Mode::Broadcast, Some(1)),
+            ],
+            rounds: if q { 5 } else { 6 },
+            tick_choice: false,
+            env: EvEnv { hold_updates: 0, hold_events: false, reorder: false, drop_unreliable: false, hold_client_events: false, hold_mutations: false, hold_acks: false, update_latency: lat },
+            oracles: EvOracles { c04: true, c05: true, ..Default::default() },
+            closure_rounds: 6,
+        };
+        v.push(plan(c, 0, 2.0));
+    }
     v
 }
 
